@@ -133,6 +133,19 @@ def c14(tier):
                                                                          followups=2, complete_flag=[True]), **_HO)]
 
 
+def c16(tier):
+    q = [_ob("H-hooks/hpc", H, "h_submit", dict(shapes=["chain2", "indep2"], bss=[1, 2], maxns=[None], hooks=True, fails=False,
+                                                cancel_flags=False), **_HO),
+         _ob("H-hooks/local", H, "h_submit", dict(shapes=["chain2"], bss=[2], maxns=[None], hooks=True, fails=True, local=True,
+                                                  procs=1, hook_rcs=[0, 1]), **_HO),
+         _ob("H-hooks/hpc-failing", H, "h_submit", dict(shapes=["chain2"], bss=[1], maxns=[None], hooks=True, fails=True,
+                                                        hook_rcs=[0, 1]), **_HO)]
+    if tier == "quick":
+        return q
+    return q + [_ob("H-hooks/hpc-wide", H, "h_submit", dict(shapes=["chain3", "fork3", "join3"], bss=[1, 2], maxns=[None, 1],
+                                                            hooks=True, fails=False, G=2, cancel_flags=False), **_HO)]
+
+
 def obligations(prop, tier):
     table = {
         "C01": lambda t: k_batch(t) + k_queue(t) + h_submit(t),
@@ -146,6 +159,7 @@ def obligations(prop, tier):
         "C12": h_lost,
         "C14": c14,
         "C15": c15,
+        "C16": c16,
         "C17": c17,
         "C18": c18,
         "C20": c20,
